@@ -240,6 +240,8 @@ class SimQueue:
         self.pending: Dict[int, List[Message]] = {}  # per producer FIFO of messages not yet delivered
         self.producers: Dict[int, SimProcess] = {}
         self.closed = False
+        self.put_times: List[int] = []  # instants of every put() made by a worker, delivered or not
+        self.got = 0
 
     # ------------------------------------------------------------------------------ producers (simulator side)
     def attach(self, proc: SimProcess, stream: Stream):
@@ -298,6 +300,7 @@ class SimQueue:
             if kind:
                 w.fired["crash-" + kind] = w.fired.get("crash-" + kind, 0) + 1
         elif kind == "kill":
+            self.put_times.extend(m.t_put for m in msgs[len(msgs) - lost:] if lost)
             proc.exit_time = t_end
             proc._exitcode = -9
             if lost:
@@ -308,6 +311,7 @@ class SimQueue:
             w.fired["crash-kill"] = w.fired.get("crash-kill", 0) + 1
         self.pending[widx] = msgs
         self.producers[widx] = proc
+        self.put_times.extend(m.t_put for m in msgs)
 
     def cut(self, proc: SimProcess, t: int):
         self.pending[proc.index] = [m for m in self.pending.get(proc.index, []) if m.t_avail <= t]
@@ -358,6 +362,7 @@ class SimQueue:
         ready.sort(key=lambda m: m.w)
         m = ready[w.ch.choose(len(ready), "deliver")] if len(ready) > 1 else ready[0]
         self.pending[m.w].pop(0)
+        self.got += 1
         w.delivered.append(m)
         w.delivery_order.append(m.w)
         w.progress()
@@ -374,8 +379,11 @@ class SimQueue:
         return not any(m.t_avail <= self.world.now for m in self._heads())
 
     def qsize(self):
+        # multiprocessing.Queue.qsize() is a semaphore count: incremented by put() in the producer, decremented by
+        # get() in the consumer.  A message that was put but never reached the pipe (producer killed before its
+        # feeder thread flushed it) is counted for ever; a message still in the feeder's buffer is counted already.
         self.world.tick()
-        return sum(1 for q in self.pending.values() for m in q if m.t_avail <= self.world.now)
+        return sum(1 for t in self.put_times if t <= self.world.now) - self.got
 
     def close(self):
         self.closed = True
